@@ -124,6 +124,37 @@ class Impl:
             return self.topo.network_services[ref[1]]
         return self.node(ref[1]).network_services[ref[2]]
 
+    def element(self, ref):
+        """fresh handle of an existing element: ['node', name] | ['comp', node, comp] | ['svc', svcref] |
+        ['cp', id] | ['link', name]"""
+        k = ref[0]
+        if k == 'node':
+            return self.node(ref[1])
+        if k == 'comp':
+            return self.node(ref[1]).components[ref[2]]
+        if k == 'svc':
+            return self.svc(ref[1])
+        if k == 'cp':
+            return self.iface(ref)
+        if k == 'link':
+            return self.topo.links[ref[1]]
+        raise ValueError(ref)
+
+    KIND = {'node': 1, 'comp': 2, 'svc': 3, 'cp': 4, 'link': 5}
+
+    def pure_element(self, kind, kw):
+        from fim.slivers.network_node import NodeSliver
+        from fim.slivers.attached_components import ComponentSliver
+        from fim.slivers.network_service import NetworkServiceSliver
+        from fim.slivers.interface_info import InterfaceSliver
+        from fim.slivers.network_link import NetworkLinkSliver
+        cls = {'node': NodeSliver, 'comp': ComponentSliver, 'svc': NetworkServiceSliver, 'cp': InterfaceSliver,
+               'link': NetworkLinkSliver}[kind]
+
+        def go():
+            cls().set_properties(**self.kwargs(kw))
+        return self._verdict(go)[0]
+
     # ---------------------------------------------------------------- pure verdicts (sliver construction only)
     @staticmethod
     def _verdict(fn):
@@ -247,6 +278,47 @@ class Impl:
                                                     kw=lambda t=t: {'labels': self.value(t[1]),
                                                                     'capacities': self.value(t[2])})
                                     for t in s['interfaces']]
+        elif op in ('rename', 'set_props'):
+            h = self.element(s['el'])
+            info['id'] = h.node_id
+            info['kind'] = self.KIND[s['el'][0]]
+            if op == 'set_props':
+                info['pure'] = self.pure_element(s['el'][0], s.get('kw'))
+        elif op == 'remove_link':
+            pass
+        elif op == 'unpeer':
+            info['a'] = self.svc(s['a']).node_id
+            info['b'] = self.svc(s['b']).node_id
+        elif op == 'port_mirror':
+            h = self.iface(s['to']) if s.get('to') is not None else None
+            info['to'] = [h.node_id, h.name] if h is not None else None
+            frm = s.get('from')
+            info['pure'] = self.pure_service(
+                {'nstype': 'PortMirror'},
+                kw=lambda: dict(mirror_port=frm, mirror_vlan=s.get('vlan'),
+                                mirror_direction=__import__("fim.slivers.network_service", fromlist=["MirrorDirection"]).MirrorDirection.Both, **self.kwargs(s.get('kw'))))
+        elif op == 'connect':
+            info['svc'] = self.svc(s['svc']).node_id
+            h = self.iface(s['if'])
+            info['if'] = [h.node_id, h.name]
+        elif op == 'add_child':
+            h = self.iface(s['if'])
+            info['id'] = h.node_id
+            # the label checks of add_child_interface, evaluated on what the API shows before the call
+            lv = None
+            vlan = s.get('vlan')
+            if not vlan:
+                lv = 'TopologyException'
+            else:
+                used = [c.labels.vlan for c in h.interface_list if c.labels and c.labels.vlan]
+                if vlan in used:
+                    lv = 'TopologyException'
+                elif not h.labels:
+                    lv = 'TopologyException'
+            info['label_verdict'] = lv
+            info['pure'] = self.pure_iface(
+                {'itype': 'SubInterface'},
+                kw=lambda: dict(({'labels': self.f.Labels(vlan=vlan)} if vlan else {}), **self.kwargs(s.get('kw'))))
         elif op == 'peer':
             info['a'] = self.svc(s['a']).node_id
             info['b'] = self.svc(s['b']).node_id
@@ -324,7 +396,24 @@ class Impl:
         elif op == 'save_if':
             self.saved[s['as']] = self.iface(s['ref'])
         elif op == 'set_props':
-            self.node(s['node']).set_properties(**kw)
+            self.element(s['el']).set_properties(**kw)
+        elif op == 'rename':
+            self.element(s['el']).rename(s['new'])
+        elif op == 'unpeer':
+            a, b = self.svc(s['a']), self.svc(s['b'])
+            a.unpeer(b)
+        elif op == 'port_mirror':
+            t.add_port_mirror_service(name=s['name'], node_id=s.get('node_id'), from_interface_name=s.get('from'),
+                                      from_interface_vlan=s.get('vlan'),
+                                      to_interface=self.iface(s['to']) if s.get('to') is not None else None, **kw)
+        elif op == 'connect':
+            self.svc(s['svc']).connect_interface(self.iface(s['if']))
+        elif op == 'add_child':
+            h = self.iface(s['if'])
+            args = dict(name=s['name'], node_id=s.get('node_id'), **kw)
+            if s.get('vlan'):
+                args['labels'] = f.Labels(vlan=s['vlan'])
+            h.add_child_interface(**args)
         else:
             raise ValueError(op)
 
